@@ -21,7 +21,15 @@ inductive Val where
   | str (s : List UInt8)
   | list (xs : List Int)
   | param (v mn mx : Int) (pending : Bool)
+  | bool (b : Bool)          -- Python `True` / `False`: numbers 1 / 0 in every comparison and sum
+  | none                     -- Python `None` passed as a value
   deriving DecidableEq, Repr, Inhabited
+
+/-- the numeric reading of a value (`SupportsFloat`), in sixteenths -/
+def Val.numOf : Val → Option Int
+  | .num n => some n
+  | .bool b => some (if b then 16 else 0)
+  | _ => Option.none
 
 /-- `math.isclose(a, b, abs_tol=TOLERANCE)` on sixteenths: `|a-b|/16 ≤ TOLERANCE`, with the
 exact binary value of the constant in the source (`Props/C20.lean: close_iff` ties it to the
@@ -33,11 +41,14 @@ def close (a b : Int) : Bool :=
 or old.values != new.values`; two numbers: not close; otherwise `old.__ne__(new)`, which for
 values of different kinds is the (truthy) `NotImplemented` object. -/
 def changed : Val → Val → Bool
-  | .num a, .num b => !close a b
   | .param v mn mx _, .param v' mn' mx' p' => p' || !(v == v' && mn == mn' && mx == mx')
   | .str a, .str b => a != b
   | .list a, .list b => a != b
-  | _, _ => true
+  | .none, .none => false
+  | x, y =>
+    match x.numOf, y.numOf with
+    | some a, some b => !close a b
+    | _, _ => true
 
 inductive Diff where
   | nothing            -- `_diffence_between` returned None
@@ -50,10 +61,12 @@ Two lists: the elements of `new` not in `old`; two numbers: `new - old`; two par
 `Parameter.__sub__` looks `__sub__` up on `ParameterValues` and raises AttributeError (open
 finding F4); anything else has no difference. -/
 def difference : Val → Val → Diff
-  | .num a, .num b => .val (.num (b - a))
   | .list a, .list b => .val (.list (b.filter fun x => !a.contains x))
   | .param .., .param .. => .error
-  | _, _ => .nothing
+  | x, y =>
+    match x.numOf, y.numOf with
+    | some a, some b => .val (.num (b - a))
+    | _, _ => .nothing
 
 structure Call where
   t : Int
@@ -139,10 +152,10 @@ def delta : Machine := ⟨Option Val, none, deltaStep⟩
 clock reading when the filter object was built.  A non-numeric value raises ValueError before
 anything is changed. -/
 def aggregateStep (secs : Int) (s : Int × Int) (c : Call) : (Int × Int) × Out :=
-  match c.v with
-  | .num n =>
+  match c.v.numOf with
+  | some n =>
     if secs ≤ c.t - s.2 then ((0, c.t), .deliver (.num (s.1 + n))) else ((s.1 + n, s.2), .skip)
-  | _ => (s, .raised)
+  | Option.none => (s, .raised)
 
 def aggregate (secs t0 : Int) : Machine := ⟨Int × Int, (0, t0), aggregateStep secs⟩
 
@@ -157,10 +170,8 @@ inductive Pred where
 def Pred.eval : Pred → Val → Bool
   | .always, _ => true
   | .never, _ => false
-  | .numGe k, .num n => decide (k ≤ n)
-  | .numGe _, _ => false
-  | .notNum, .num _ => false
-  | .notNum, _ => true
+  | .numGe k, v => match v.numOf with | some n => decide (k ≤ n) | Option.none => false
+  | .notNum, v => v.numOf.isNone
 
 /-- `_Custom.__call__` (filters.py:349-352) -/
 def customStep (p : Pred) (_ : Unit) (c : Call) : Unit × Out :=
